@@ -341,7 +341,7 @@ func main() {
 		deadline := vkit.Deadline(90*time.Second, 25*time.Minute)
 		bound := "all schedules"
 		if full {
-			st = ns.Search(ck, 3000000, deadline) // state cap: a search that outgrows memory would kill the process; below the cap it is complete
+			st = ns.Search(ck, 1500000, deadline) // state cap: a search that outgrows memory would kill the process; below the cap it is complete
 		} else {
 			var k int
 			fmt.Sscanf(sc.Mode, "dev%d", &k)
